@@ -3,6 +3,7 @@ from __future__ import annotations
 
 import copy
 
+import bs4
 import soupsieve as sv
 
 from engine import choose, common, ref_html, refmatch as R, selast as S, trees  # noqa: F401 (ref_html registers EXT)
@@ -271,6 +272,24 @@ def evaluate(case, doc=None):
             c.get('tag') and c['tag'].get('ns') is not None for c in S.walk_compounds(case['sel'])) else 'tag'
         fails.append((f'ns-{what}-{kind}', f'{text!r} with map {case["map"]} on {str(doc.target)[:400]!r}: soupsieve '
                       f'{[o.get(id(x)) for x in got]} reference {[o.get(id(x)) for x in exp]}'))
+    # the same question started from an element, foreign-namespace elements first (what a query learns about the tree
+    # must not depend on where it was started)
+    starts = [e for e in els if (e.namespace or '') not in ('', trees.NS_XHTML)][:2] + els[:1]
+    for st in starts:
+        sub = [d for d in st.descendants if isinstance(d, bs4.Tag)]
+        want = [d for d in sub if R.match_list(ctx, d, case['sel'])]
+        try:
+            got_s = sv.select(text, st, **kw)
+            got_m = sv.match(text, st, **kw)
+        except Exception as e:  # noqa: BLE001
+            fails.append((f'raises-{type(e).__name__}', f'{text!r} map={case["map"]} from <{st.name}>: {e!r:.200}'))
+            break
+        if [id(x) for x in got_s] != [id(x) for x in want] or bool(got_m) != bool(R.match_list(ctx, st, case['sel'])):
+            fails.append(('answer-depends-on-start-element',
+                          f'{text!r} with map {case["map"]} started from <{st.name}> (namespace {st.namespace!r}) of '
+                          f'{str(doc.target)[:300]!r}: select {[o.get(id(x)) for x in got_s]} reference {[o.get(id(x)) for x in want]}; '
+                          f'match {got_m} reference {R.match_list(ctx, st, case["sel"])}'))
+            break
     # metamorphic: document prefixes are never compared
     if case['tree']['kind'] in ('lxml-xml', 'xml-api') and case['flavour'] != 'xhtml':
         doc2 = trees.materialise(rename_prefixes(case['tree']))
